@@ -27,6 +27,9 @@ std::istream & operator>>(std::istream & is, StringDelimiter<delimiter>& output)
 
 inline bool file_exists(std::filesystem::path p)
 {
+    // A directory can be opened as a stream as well, but it is no file that could be read
+    std::error_code ec;
+    if (!std::filesystem::is_regular_file(p, ec)) { return false; }
     std::ifstream infile(p.string());
     return infile.good();
 }
